@@ -44,7 +44,7 @@ theorem vok_aligned (pu : Str) (pa : List Str) (v : Variant)
   cases v with
   | mk key id uid name type arches paths rel kids =>
   simp only [Rule.check, customs_uid] at h1
-  simp [ciVariantUid, variantObj, Obj.get, ctxVal, PyVal.get?, pyFormat] at h1
+  simp [ciVariantUid, variantObj, Obj.get, ctxVal, PyVal.get?, pyFormat, PyVal.isinstance] at h1
   exact (pyEq_str _ _).mp h1
 
 /-- a validated top-level variant's UID is its id with dashes inserted -/
@@ -54,7 +54,7 @@ theorem vok_top (v : Variant)
   cases v with
   | mk key id uid name type arches paths rel kids =>
   simp only [Rule.check, customs_uid] at h1
-  simp [ciVariantUid, variantObj, Obj.get, ctxVal] at h1
+  simp [ciVariantUid, variantObj, Obj.get, ctxVal, PyVal.isinstance] at h1
   exact (pyEq_str _ _).mp h1
 
 /-! ### Release: the type is one of the table, hence already lower case -/
